@@ -185,6 +185,9 @@ func (h *Session) Parse(p []byte) (frame Frame, err error) {
 		atomic.StoreUint32(&h.ipHeartBeat, 1)
 		h.Statistics[PayloadIP4].Count++
 		frame.offsetIP4 = frame.offsetPayload
+		if n := frame.offsetPayload + int(ip4.TotalLen()); n < len(frame.ether) {
+			frame.ether = frame.ether[:n] // the datagram ends at TotalLen: what follows is ethernet padding, not transport data
+		}
 		frame.offsetPayload = frame.offsetPayload + ip4.IHL()
 		proto = ip4.Protocol()
 		frame.SrcAddr.IP = ip4.Src()
